@@ -12,6 +12,8 @@ Variable lookup : lookup_fn.
    syllables; no entry for the empty key *)
 Hypothesis lookup_len : forall syms p, In p (lookup syms) -> length (fst p) = length syms.
 Hypothesis lookup_nil : lookup [] = [].
+(* Syllable::to_string, used only by the fallback for a syllable without any word *)
+Variable spell : N -> list N.
 
 Variable c : composition.
 Hypothesis Wc : wf_comp c.
@@ -21,6 +23,11 @@ Hypothesis sel_len : Forall (fun s => length (itext s) = ie s - ib s) (selection
 (* ... and cover syllables only (the editor offers phrase candidates for syllable ranges) *)
 Hypothesis sel_syl : forall sel k, In sel (selections c) -> ib sel <= k < ie sel ->
   exists s, nth_error (symbols c) k = Some (SymSyl s).
+(* C03 quantifies over dictionaries with at least one word per syllable: every syllable of the
+   buffer has a word under the engine's lookup strategy (then the spelled fallback of
+   find_best_phrase is never taken; without it a fallback edge carries the spelling, which has
+   more than one character) *)
+Hypothesis has_word : forall s, In (SymSyl s) (symbols c) -> lookup [SymSyl s] <> [].
 
 Lemma text_eqb_eq a b : text_eqb a b = true <-> a = b.
 Proof. apply list_eqb_N_spec. Qed.
@@ -157,6 +164,43 @@ Proof.
   unfold disjoint in Hd. lia.
 Qed.
 
+Lemma pick_best_some_stays s e : forall cands b mf, exists q, pick_best c s e cands (Some b) mf = Some q.
+Proof.
+  induction cands as [|p rest IH]; intros b mf; cbn [pick_best]; [eauto|].
+  destruct (agrees_with_selections c s e (fst p)); [|apply IH].
+  destruct (N.ltb mf (snd p) || false); apply IH.
+Qed.
+
+Lemma pick_best_none s e : forall cands mf, pick_best c s e cands None mf = None ->
+  forall p, In p cands -> agrees_with_selections c s e (fst p) = false.
+Proof.
+  induction cands as [|q rest IH]; intros mf H p Hin; [destruct Hin|]. cbn [pick_best] in H.
+  destruct (agrees_with_selections c s e (fst q)) eqn:Ea.
+  - rewrite orb_true_r in H. destruct (pick_best_some_stays s e rest q (snd q)) as (x & Hx). congruence.
+  - destruct Hin as [<-|Hin]; [exact Ea | eapply IH; eassumption].
+Qed.
+
+(* with a word for every syllable, a single syllable always gets an edge from the dictionary or
+   from a forced selection: the spelled fallback is not reached *)
+Lemma fallback_unreachable b s : nth_error (symbols c) b = Some (SymSyl s) ->
+  pick_best c b (b + 1) (lookup [SymSyl s]) None 0%N = None -> forced_selection c b (b + 1) <> None.
+Proof.
+  intros Hb Hp Hf.
+  destruct (lookup [SymSyl s]) as [|p rest] eqn:El; [apply (has_word s); [eapply nth_error_In; eassumption | exact El]|].
+  pose proof (pick_best_none _ _ _ _ Hp p (or_introl eq_refl)) as Ha.
+  unfold agrees_with_selections in Ha.
+  assert (exists sel, In sel (selections c) /\ Nat.leb b (ib sel) && Nat.leb (ie sel) (b + 1) = true) as (sel & Hin & Hc).
+  { clear -Ha. induction (selections c) as [|x l IH]; cbn [forallb] in Ha; [discriminate|].
+    apply andb_false_iff in Ha as [Hx|Hl].
+    - exists x. split; [now left|]. destruct (Nat.leb b (ib x) && Nat.leb (ie x) (b + 1)); [reflexivity | discriminate].
+    - destruct (IH Hl) as (y & Hy & Hc). exists y. split; [now right | exact Hc]. }
+  apply andb_true_iff in Hc as [H1 H2]. apply Nat.leb_le in H1, H2.
+  destruct Wc as [_ Ws _]. rewrite Forall_forall in Ws. destruct (Ws _ Hin) as [Hlt _].
+  unfold forced_selection in Hf. pose proof (find_none _ _ Hf sel Hin) as Hn. cbn beta in Hn.
+  assert (ib sel = b) by lia. assert (ie sel = b + 1) by lia.
+  rewrite (proj2 (Nat.eqb_eq b (ib sel))), (proj2 (Nat.eqb_eq (b + 1) (ie sel))) in Hn by lia. discriminate.
+Qed.
+
 (* the dictionary / forced-selection branch of find_best_phrase *)
 Lemma phrase_branch_ok b n syms p :
   1 <= n -> b + n <= clen c -> length syms = n ->
@@ -196,7 +240,7 @@ Qed.
 
 Lemma find_best_phrase_ok b n p :
   b + n <= clen c ->
-  find_best_phrase lookup c b (firstn n (skipn b (symbols c))) = Some p ->
+  find_best_phrase spell lookup c b (firstn n (skipn b (symbols c))) = Some p ->
   edge_ok (mkEdge b (b + n) p).
 Proof.
   intros Hn H. unfold find_best_phrase in H.
@@ -225,12 +269,17 @@ Proof.
                     | Some q => Some (PPhrase (fst q) (snd q))
                     | None => match forced_selection c b (b + n) with
                               | Some sel => Some (PPhrase (itext sel) 0%N)
-                              | None => None
+                              | None => match l with [] => Some (PPhrase (spell s) 0%N) | _ => None end
                               end
                     end) = Some p) by (destruct l; exact H).
       destruct (existsb is_char (SymSyl s :: l)) eqn:Ech; [discriminate|].
       cbn [length] in Hlen.
       apply (phrase_branch_ok b n (SymSyl s :: l) p); try assumption; try lia; try (cbn [length]; exact Hlen); try (apply RS; lia).
+      destruct (pick_best c b (b + n) (lookup (SymSyl s :: l)) None 0%N) eqn:Ep; [exact H'|].
+      destruct (forced_selection c b (b + n)) eqn:Ef; [exact H'|]. exfalso.
+      destruct l as [|y l']; [|discriminate]. cbn [length] in Hlen. subst n.
+      apply (fallback_unreachable b s); [|exact Ep | exact Ef].
+      specialize (Hnth 0 ltac:(lia)). cbn [nth_error] in Hnth. rewrite Nat.add_0_r in Hnth. now symmetry.
     + destruct l as [|y l].
       * (* a single character symbol: kept as it is *)
         cbn [length] in Hlen. subst n. inversion H; subst; clear H. specialize (RS ltac:(lia)).
@@ -247,15 +296,15 @@ Proof.
 Qed.
 
 (* every edge of the graph is well-formed *)
-Lemma in_edges_from b g : In g (edges_from lookup c b) -> b < clen c -> edge_ok g.
+Lemma in_edges_from b g : In g (edges_from spell lookup c b) -> b < clen c -> edge_ok g.
 Proof.
   unfold edges_from. intros Hin Hb. apply in_flat_map in Hin as (n & Hn & Hg).
   apply in_seq in Hn.
-  destruct (find_best_phrase lookup c b (firstn n (skipn b (symbols c)))) as [p|] eqn:Ef; [|destruct Hg].
+  destruct (find_best_phrase spell lookup c b (firstn n (skipn b (symbols c)))) as [p|] eqn:Ef; [|destruct Hg].
   destruct Hg as [<-|[]]. apply find_best_phrase_ok; [lia | exact Ef].
 Qed.
 
-Theorem graph_edges_ok g : In g (find_intervals lookup c) -> edge_ok g.
+Theorem graph_edges_ok g : In g (find_intervals spell lookup c) -> edge_ok g.
 Proof.
   unfold find_intervals. intros Hin. apply in_flat_map in Hin as (b & Hb & Hg).
   apply in_seq in Hb. eapply in_edges_from; [exact Hg | lia].
@@ -389,7 +438,7 @@ Qed.
 
 (* C03: EVERY 0->len path through the interval graph glues into a tiling *)
 Theorem every_path_tiles p :
-  path_ok (find_intervals lookup c) 0 (clen c) p = true ->
+  path_ok (find_intervals spell lookup c) 0 (clen c) p = true ->
   let ivs := glue_path c (map edge_interval p) in
   contiguous 0 (clen c) ivs = true /\ Forall iv_ok ivs.
 Proof.
@@ -514,7 +563,7 @@ Proof.
     apply (merge_ok (edge_interval (mkEdge gb ge (PPhrase t f))) (mkIv ge upto true (skipn (length t) text))); try assumption; reflexivity.
 Qed.
 
-Theorem valid_conversion_tiles ivs : symbols c <> [] -> valid_conversion lookup c ivs = true ->
+Theorem valid_conversion_tiles ivs : symbols c <> [] -> valid_conversion spell lookup c ivs = true ->
   contiguous 0 (clen c) ivs = true /\ Forall iv_ok ivs.
 Proof.
   intros Hne H. unfold valid_conversion in H. destruct (symbols c) eqn:Es; [contradiction|]. rewrite <- Es in *.
